@@ -97,7 +97,11 @@ class Oracle(object):
                     self.cl_epoch += 1
                 if pre_exc is None and self.qexp and len(env.queue) == len(pre_queue) + 1:
                     self.qexp[-1] = {'kind': 'retry', 'reuse': dec == 0, 'host': h, 'cl': want_cl, 'epoch': self.cl_epoch}
-                if self.which == 'C16':
+                inline_now = bool(sc.get('inline')) and pre_exc is None and not env.shut
+                if inline_now:
+                    # executor-first schedule: the retry task runs inside this very step
+                    task_exp = {'kind': 'retry', 'reuse': dec == 0, 'host': h, 'cl': want_cl, 'epoch': self.cl_epoch}
+                if self.which == 'C16' and not inline_now:
                     if sends:
                         self.flag('retry.sent_on_event_loop', 'message sent while handling the decision %r' % (op,), 'C16_obeys')
                     if pre_exc is None and not env.shut and len(env.queue) != len(pre_queue) + 1:
